@@ -456,7 +456,13 @@ def noninterference(ex, st: State, r: Any, entry_len: int) -> Any:
     subs = [(c_, z3.Const(n + "'", c_.sort())) for n, c_ in consts.items()]
     r2 = z3.substitute(r, *subs)
     facts2 = [z3.substitute(f, *subs) for f in facts]
-    return z3.Implies(z3.And(*facts2) if facts2 else z3.BoolVal(True), r == r2)
+    same = r == r2
+    obs = getattr(REG, "obs_eq", None)
+    if obs is not None:
+        # a freshly built schema object is a different allocation in the two runs: compare what can be observed of it
+        # (class and registry, containers by content *and order*)
+        same = z3.Or(same, obs(ex.ct, r, r2))
+    return z3.Implies(z3.And(*facts2) if facts2 else z3.BoolVal(True), same)
 
 
 REG = Registry()
